@@ -47,6 +47,7 @@ var c17OpNames = []string{
 	"private NewMapXml", "private NewMapJson", "private NewMapXmlSeq", "private NewMapXmlReader stream",
 	"private Copy(S) then mutate the copy", "private Map encode+query", "S.ValuesForPath(subkeys)", "SS.StringIndent", "AnyXml(S)", "Maps{S,S}.XmlString",
 	"S.XmlIndentWriter", "S.JsonIndent(safe)",
+	"private BeautifyXml", "private JSON reader stream", "private HandleXmlReader stream", "SS.XmlIndentWriter", "S.ValuesForPath(indexed)", "private sequence reader stream",
 }
 
 func res(v interface{}, err error) string {
@@ -224,6 +225,49 @@ func (o *c17op) exec(e *c17env) (out string) {
 	case 35:
 		b, err := S.JsonIndent(o.A, o.B, true)
 		return string(b) + res(nil, err)
+	case 36:
+		b, err := mxj.BeautifyXml([]byte(o.Doc), "", " ")
+		m, err2 := mxj.NewMapFormattedXmlSeq([]byte(o.Doc))
+		return string(b) + res(nil, err) + res(asIface(m), err2)
+	case 37:
+		r := NewSimReader(e.c, fmt.Sprintf("jr%x", uint64(HashStr(o.Doc))&0xffff), []byte(o.Doc), &ReadSched{ErrAt: -1, CutAt: -1, Chunk: o.N % 3, ChunkSeed: uint64(o.N), EOFWithData: o.N%2 == 0, ZeroEvery: o.N % 3})
+		var sb strings.Builder
+		for i := 0; i < 4; i++ {
+			m, raw, err := mxj.NewMapJsonReaderRaw(r)
+			sb.WriteString(res(asIface(m), err) + string(raw) + ";")
+			if err != nil {
+				break
+			}
+		}
+		return sb.String()
+	case 38:
+		r := NewSimReader(e.c, fmt.Sprintf("hr%x", uint64(HashStr(o.Doc))&0xffff), []byte(o.Doc), &ReadSched{ErrAt: -1, CutAt: -1, Chunk: o.N % 3, ChunkSeed: uint64(o.N), EOFWithData: o.N%2 == 1})
+		var sb strings.Builder
+		err := mxj.HandleXmlReaderRaw(r, func(m mxj.Map, raw []byte) bool { sb.WriteString(res(asIface(m), nil) + string(raw) + ";"); return true },
+			func(err error, raw []byte) bool { sb.WriteString("E:" + err.Error()); return false })
+		return sb.String() + res(nil, err)
+	case 39:
+		w := &SimWriter{c: e.c}
+		err := SS.XmlIndentWriter(w, o.A, o.B)
+		return string(w.Got) + res(nil, err)
+	case 40:
+		p := o.A
+		if i := strings.LastIndexByte(p, '.'); i > 0 {
+			p = p[:i] + "[0]" + p[i:]
+		}
+		v, err := S.ValuesForPath(p)
+		return res(v, err)
+	case 41:
+		r := NewSimReader(e.c, fmt.Sprintf("sr%x", uint64(HashStr(o.Doc))&0xffff), []byte(o.Doc), &ReadSched{ErrAt: -1, CutAt: -1, Chunk: o.N % 3, ChunkSeed: uint64(o.N), EOFWithData: o.N%2 == 1})
+		var sb strings.Builder
+		for i := 0; i < 4; i++ {
+			m, raw, err := mxj.NewMapXmlSeqReaderRaw(r)
+			sb.WriteString(res(asIface(m), err) + string(raw) + ";")
+			if err != nil {
+				break
+			}
+		}
+		return sb.String()
 	}
 	return "?"
 }
@@ -449,13 +493,21 @@ func runC17(c *Ctx) *Violation {
 				o.Kind = t.Draw(24) // bias towards the shared value
 			}
 			o.Name = c17OpNames[o.Kind]
-			o.Shared = o.Kind < 24 || o.Kind >= 30
+			o.Shared = o.Kind < 24 || (o.Kind >= 30 && o.Kind <= 35) || o.Kind == 39 || o.Kind == 40
 			o.A = paths[t.Draw(len(paths))]
 			o.B = keys[t.Draw(len(keys))]
 			o.N = t.Draw(6)
 			switch o.Kind {
-			case 1, 3, 21, 34, 35:
+			case 1, 3, 21, 34, 35, 39:
 				o.A, o.B = indentStrs[t.Draw(len(indentStrs))], indentStrs[1+t.Draw(len(indentStrs)-1)]
+			case 36:
+				o.Doc = genXMLDoc(t, XMLOpts{Seq: true, Mixed: true, MaxDepth: 2})
+			case 37:
+				o.Doc = genJSONDoc(t, JSONOpts{WS: true, MaxDepth: 2}) + "\n" + genJSONDoc(t, JSONOpts{MaxDepth: 2})
+			case 38:
+				o.Doc = genXMLDoc(t, XMLOpts{MaxDepth: 2}) + " " + genXMLDoc(t, XMLOpts{MaxDepth: 2, Mixed: true})
+			case 41:
+				o.Doc = genXMLDoc(t, XMLOpts{Seq: true, MaxDepth: 2}) + "\n" + genXMLDoc(t, XMLOpts{Seq: true, MaxDepth: 2})
 			case 24, 29:
 				o.Doc = genXMLDoc(t, XMLOpts{Mixed: true, Small: true, MaxDepth: 2})
 			case 25:
@@ -637,7 +689,7 @@ func init() {
 			loadFacts()
 			return map[string]string{"s3_package_state_rule": s3Note}
 		},
-		Rule: "each case = 2..6 tasks (real goroutines) x 1..4 operations each, drawn from 36 operation kinds: read-only encoders/queries on ONE shared Map and ONE shared MapSeq, decodes of private documents (incl. a private simulated reader stream), and mutation of a private Copy of the shared Map; every operation is first executed alone (sequential reference, receiver digest checked after each: S5, Copy aliasing walk: S4) and then all tasks run under a cooperative scheduler that hands control over only at the ~430 generated yield points, following one of four seeded policies (preemption-bounded, PCT priorities, random switch, round-robin quantum); at EVERY yield the shared receivers' digest (S2) and the digest of every package-level variable (S3) are compared with their initial value, and afterwards every operation's result must equal its sequential result (S1). Each task has its own seeded map-iteration policy. Non-trivial = at some yield two tasks were simultaneously inside operations on the shared value; distinct = distinct (shared value, interleaving hash).",
+		Rule: "each case = 2..6 tasks (real goroutines) x 1..4 operations each, drawn from 42 operation kinds: read-only encoders/queries on ONE shared Map and ONE shared MapSeq, decodes of private documents (incl. a private simulated reader stream), and mutation of a private Copy of the shared Map; every operation is first executed alone (sequential reference, receiver digest checked after each: S5, Copy aliasing walk: S4) and then all tasks run under a cooperative scheduler that hands control over only at the ~430 generated yield points, following one of four seeded policies (preemption-bounded, PCT priorities, random switch, round-robin quantum); at EVERY yield the shared receivers' digest (S2) and the digest of every package-level variable (S3) are compared with their initial value, and afterwards every operation's result must equal its sequential result (S1). Each task has its own seeded map-iteration policy. Non-trivial = at some yield two tasks were simultaneously inside operations on the shared value; distinct = distinct (shared value, interleaving hash).",
 		Assumptions: []string{
 			"scheduling points exist only in mxj's root package; the standard library runs atomically between them",
 			"while the package contains no synchronisation primitive, any write to package-level state from a decode/encode/query path is a data race (S3); when the instrumenter finds sync/go/select, S3 is switched off and the evidence says so",
